@@ -26,6 +26,10 @@ type Net struct {
 	Policy  types.SpendPolicy
 	SK2     types.PrivateKey // a second party (payee / host)
 	Addr2   types.Address
+	// Volatile: the difficulty adjustment follows the block timestamps closely (difficulty 1 at
+	// genesis, one-second Oak start), so that a short branch of fast blocks outweighs a longer
+	// branch of slow ones — reorgs to SHORTER chains
+	Volatile bool
 }
 
 func keyFrom(rng *vh.RNG) types.PrivateKey {
@@ -37,6 +41,15 @@ func keyFrom(rng *vh.RNG) types.PrivateKey {
 // NewNet derives a network from testutil.Network with the given v2 allow/require heights and
 // maturity delay, and gives the actor a genesis siafund allocation is left as in Zen.
 func NewNet(rng *vh.RNG, allow, require, maturity uint64) *Net {
+	return newNet(rng, allow, require, maturity, false)
+}
+
+// NewVolatileNet is NewNet with a difficulty that follows the timestamps closely (see Net.Volatile).
+func NewVolatileNet(rng *vh.RNG, allow, require, maturity uint64) *Net {
+	return newNet(rng, allow, require, maturity, true)
+}
+
+func newNet(rng *vh.RNG, allow, require, maturity uint64, volatile bool) *Net {
 	n, genesis := testutil.Network()
 	n.HardforkV2.AllowHeight = allow
 	n.HardforkV2.RequireHeight = require
@@ -52,7 +65,16 @@ func NewNet(rng *vh.RNG, allow, require, maturity uint64) *Net {
 	n.HardforkASIC.OakTime = n.BlockInterval
 	n.HardforkASIC.OakTarget = n.InitialTarget
 	n.HardforkOak.GenesisTimestamp = genesis.Timestamp
-	net := &Net{N: n, SK: keyFrom(rng), SK2: keyFrom(rng)}
+	if volatile {
+		// testutil's own target and block interval (difficulty 1, one second) with the Oak
+		// estimator started at one hash per second: blocks one second apart raise the difficulty by
+		// about one per block, blocks a thousand seconds apart let it fall
+		n.InitialTarget = types.BlockID{0xFF}
+		n.BlockInterval = time.Second
+		n.HardforkASIC.OakTime = time.Second
+		n.HardforkASIC.OakTarget = n.InitialTarget
+	}
+	net := &Net{N: n, SK: keyFrom(rng), SK2: keyFrom(rng), Volatile: volatile}
 	net.UC = types.StandardUnlockConditions(net.SK.PublicKey())
 	net.Addr = net.UC.UnlockHash()
 	net.Policy = types.SpendPolicy{Type: types.PolicyTypeUnlockConditions(net.UC)}
@@ -155,6 +177,9 @@ type Tree struct {
 	// Disagreements between core's verdict on a block and what a Manager fed only that block's
 	// ancestry did with it (found while labelling; reported by the harnesses as oracle failures).
 	Disagreements []string
+	// SlowLeaf/FastLeaf (volatile networks, 0 = none): tips of a long chain of slow blocks and of a
+	// competing branch of fast blocks that is sufficiently heavier, usually while shorter
+	SlowLeaf, FastLeaf int
 }
 
 func NewTree(net *Net) *Tree {
